@@ -434,6 +434,26 @@ def child_restart(root: str, layout: str, outpath: str,
                         box['append_validity'] = r.tagged.data[0]
                         box['append_uid'] = r.tagged.data[1][0]
                 out['boxes'][name] = box
+            # what a user does with a mailbox that does not open: create it
+            # again.  A CREATE that is answered OK is an acknowledged
+            # creation, the mailbox must open then.
+            for name, box in list(out['boxes'].items()):
+                if box.get('select_cond') == 'OK':
+                    continue
+                if c.dead:
+                    await c.loop.quiescent()   # type: ignore[attr-defined]
+                    c = Conn(c.cid + 1, Sched())
+                    c.start(env.imap)
+                    await c.greeting()
+                    if not (await c.simple(b'LOGIN u1 pw1')).ok:
+                        break
+                wname = astring(name.encode('latin-1'))
+                r = await c.simple(b'CREATE ' + wname)
+                box['recreate_cond'] = (r.cond or b'closed').decode()
+                if r.ok:
+                    r = await c.simple(b'SELECT ' + wname)
+                    box['select_after_recreate'] = (
+                        r.cond or b'closed').decode()
             if not c.dead:
                 await c.simple(b'LOGOUT')
         try:
@@ -600,6 +620,20 @@ def judge(model: Model, dump: dict[str, Any],
     elif ikind == 'create':
         maybe_new.add(iop['name'])
         maybe_new.update(_parents(iop['name']))
+    for name in sorted(maybe_new - set(model.boxes)):
+        # never acknowledged, so nothing is owed - except that a CREATE
+        # answered OK after the restart must give a mailbox that opens
+        d = dump['boxes'].get(name) or {}
+        if d and d.get('select_cond') != 'OK':
+            cnt('inflight_mailbox_unusable')
+            if d.get('recreate_cond') == 'OK':
+                cnt('inflight_mailbox_created_again')
+                if d.get('select_after_recreate') != 'OK':
+                    report('create-ok-but-mailbox-does-not-open',
+                           '%r was half created when the server died; after '
+                           'the restart CREATE %r is answered OK and SELECT '
+                           '%s' % (name, name,
+                                   d.get('select_after_recreate')))
     for name, b in model.boxes.items():
         cnt('mailboxes_checked')
         src_name = name
@@ -620,6 +654,14 @@ def judge(model: Model, dump: dict[str, Any],
                     name in maybe_new or src_name in maybe_new):
             # a mailbox whose creation was in flight and never acknowledged
             cnt('inflight_mailbox_unusable')
+            if d.get('recreate_cond') == 'OK':
+                cnt('inflight_mailbox_created_again')
+                if d.get('select_after_recreate') != 'OK':
+                    report('create-ok-but-mailbox-does-not-open',
+                           '%r was half created when the server died; after '
+                           'the restart CREATE %r is answered OK and SELECT '
+                           '%s' % (src_name, src_name,
+                                   d.get('select_after_recreate')))
             continue
         if d.get('select_cond') != 'OK' or d.get('status_cond') != 'OK' \
                 or d.get('fetch_cond') != 'OK':
